@@ -46,7 +46,7 @@ class C19(common.SpecCheck):
     pid = "C19"
     title = "Omitted mapping means the canonical default"
     unit_fn = "units:compile_many"
-    QUICK = {"nseeds": 8, "specs": 300, "round": 300, "budget": 0}
+    QUICK = {"nseeds": 8, "specs": 600, "round": 600, "budget": 0}
     rule = ("classes S, O (occupancy, no flatten), K, P and A (affine) with loop-order / rank-order / partitioning left out for some "
             "or all Einsums, on every hash seed (the default loop order of a partitioned Einsum is computed by walking a "
             "hash-ordered set of partitionings); per seed the spec as written and four variants with the omitted section "
